@@ -29,6 +29,7 @@ def scenes(draw, max_objects=14, min_objects=3):
   world = '<geom name="floor" type="plane" size="5 5 .1" condim="%d"/>' % draw(st.sampled_from([1, 3, 3, 4, 6]))
   cols = draw(st.integers(1, 4))
   spacing = draw(st.sampled_from([0.12, 0.18, 0.3]))       # < 2*size: neighbours touch
+  cluster = draw(st.integers(0, 2)) == 0                   # all bodies within a few cm: every pair passes the broadphase
   labels = set()
   for i in range(n):
     gt = draw(st.sampled_from(GEOMS))
@@ -37,6 +38,8 @@ def scenes(draw, max_objects=14, min_objects=3):
             'cylinder': [r * 0.7, r * 0.6]}[gt]
     x, y, level = (i % cols) * spacing, ((i // cols) % cols) * spacing, i // (cols * cols)
     z = r * 0.9 + level * 0.17
+    if cluster:
+      x, y, z = (i % 4) * 0.01, ((i // 4) % 4) * 0.01, r * 0.9 + (i // 16) * 0.01
     ga = dict(type=gt, size=fmt(size), condim=str(draw(st.sampled_from([1, 3, 3, 4, 6]))))
     if draw(st.integers(0, 4)) == 0:
       ga['margin'] = '0.02'
@@ -62,6 +65,7 @@ def scenes(draw, max_objects=14, min_objects=3):
              'island:' + ('off' if 'island' in flags else 'on'), 'nobj=%d' % (n // 4 * 4)}
   if 'noslip_iterations' in opt:
     labels.add('noslip')
+  labels.add('layout:cluster' if cluster else 'layout:pile')
   return dict(body=body, labels=sorted(labels), nobj=n)
 
 
